@@ -448,7 +448,7 @@ fn record(h: &History, gen_seed: u64, len: usize, quick: bool, rep: &mut Report)
 }
 
 pub fn run(ctx: &Ctx) -> Report {
-    let n = ctx.size(100_000, 1_500_000) as usize;
+    let n = ctx.size(300_000, 1_500_000) as usize;
     let quick = ctx.quick();
     par_items(ctx.threads, n, ctx.seed, move |i, seed, rep| {
         let mut rng = Rng::new(seed);
